@@ -33,12 +33,19 @@ Print Assumptions C04_own_wire_schema_accepted.
    forward: EVERY stream of an older writer (its own encoder tree, any frames/records satisfying
    stream_ok) that announces its wire schema is opened by a newer reader with the older tree and read
    back completely: all records, in order, then a clean end. *)
-From Stef Require Import Wire WireOk Frame FrameFacts Reader Writer StreamFactsBase StreamFacts Handshake HandshakeFacts EvolveFactsBase EvolveFacts.
+From Stef Require Import Wire WireOk Frame FrameFacts Reader Writer StreamFactsBase StreamFacts Handshake HandshakeFacts EvolveFactsBase EvolveFacts EvolveCompatible.
+
+(* the reader's own compatibility test never refuses an append-only descendant *)
+Theorem C04_evolves_compatible : forall old new root,
+  schema_closed old = true -> evolves old new = true ->
+  root < N.of_nat (length (structs old)) -> build_ok old root = true ->
+  compatible (own_counts new root) (own_counts old root) = true.
+Proof. exact evolves_compatible. Qed.
+Print Assumptions C04_evolves_compatible.
 
 Theorem C04_forward_read : forall old new root sizes fuel hfl ud frames kr k,
   schema_closed old = true -> evolves old new = true ->
   root < N.of_nat (length (structs old)) -> build_ok old root = true ->
-  compatible (own_counts new root) (own_counts old root) = true ->
   let t := fst (build_root old root None) in
   let d := Some (own_counts old root) in
   header_okb hfl d ud = true ->
@@ -49,7 +56,7 @@ Theorem C04_forward_read : forall old new root sizes fuel hfl ud frames kr k,
     rd_tree r0 = t /\ rd_wire_schema r0 = d /\ rd_user_data r0 = ud /\
     read_all sizes fuel kr k r0 =
     (concat (map snd frames), stream_values t frames RNil (PM.empty _), Some RdEnd).
-Proof. exact forward_read_bytes. Qed.
+Proof. exact forward_read_bytes_closed. Qed.
 Print Assumptions C04_forward_read.
 
 (* downgrade: a newer writer told to write the older wire schema is created, encodes with the OLDER
